@@ -413,8 +413,12 @@ def model(req, tree, cwd, pre, P, quirks=(), umask=0o022):
                 sub = ""
                 m = (LANG_RE_WORDS_NO_UNDERSCORE if "man-lang-regex" in quirks else LANG_RE).match(base)
                 if lang is not None:
-                    if e in (2, 3) and m:
-                        return _res("unspecified", "-i18n together with a language code in the name, EAPI 2/3")
+                    if e < 4:
+                        # PMS words the -i18n paragraph without an EAPI condition, only its precedence over the file
+                        # name code is tied to EAPI 4; not judged for older EAPIs to stay on the safe side
+                        return _res("unspecified", "-i18n before EAPI 4")
+                    if lang == "" and m:
+                        return _res("unspecified", "empty -i18n= with a language code in the name")
                     sub = lang
                     rule = "man-i18n"
                 elif e >= 2 and m:
